@@ -51,6 +51,9 @@ func runProcLevel(base uint64, parallel int) *procLevelResult {
 	if *tier == "thorough" {
 		n = 12000
 	}
+	if !*inproc {
+		n *= 25 // the only leg there is
+	}
 	cases := make([]*c16sim.ProcCase, n)
 	fk := c16sim.FaultKinds(res.kinds)
 	for i := range cases {
